@@ -28,6 +28,7 @@ Inductive piece := PRaw (b : bytes) | PRep (pat : bytes) (len : N).
 
 Inductive case :=
 | CRound (server_enc : bool) (max : N) (msgs : list (msg * bytes)) (c : cuts)
+| CBatch (server_enc : bool) (max : N) (pre : bytes) (msgs : list (msg * bytes)) (c : cuts)
 | CDecode (server : bool) (max : N) (ps : list piece) (trunc : option N) (c : cuts)
 | CHandshake (method : bytes) (h : list (bytes * bytes))
 | CHashKey (key : bytes).
@@ -130,6 +131,14 @@ Definition run_C14 (c : case) : V :=
       let '(_, stream, outs) := encode_all enc (map (fun mk => (message_of (fst mk), snd mk)) msgs) in
       let dec := role (negb server_enc) max in
       VT "round" [VL (map VEnc outs); VRun (feed lossy_ascii dec [] (segments stream cs))]
+  | CBatch server_enc max pre msgs cs =>
+      (* all messages into ONE write buffer that already holds [pre]; per message the buffer after
+         it; what [pre] became; the peer reads what follows [pre] *)
+      let enc := role server_enc 65536 in
+      let '(_, buf, outs) := encode_into enc (map (fun mk => (message_of (fst mk), snd mk)) msgs) pre in
+      let dec := role (negb server_enc) max in
+      VT "batch" [VL (map VEnc outs); VBytes (firstn (length pre) buf);
+                  VRun (feed lossy_ascii dec [] (segments (skipn (length pre) buf) cs))]
   | CDecode server max ps trunc cs =>
       let data := flat_map piece_bytes ps in
       let data := match trunc with Some t => firstn (N.to_nat t) data | None => data end in
